@@ -81,6 +81,8 @@ type Event struct {
 	AfterDsFault bool `json:"afterDsFault"`
 	// CtxRefused: this deletion ran with a caller deadline over a datastore that refuses operations on a done context
 	CtxRefused bool `json:"ctxRefused"`
+	// Also: heights appended by an OnDelete handler while this deletion ran (reentrant use)
+	Also []int `json:"also"`
 }
 
 // W is an abstract write-log entry (same shape as Store.tla's writes).
@@ -125,6 +127,11 @@ type env struct {
 	up     bool
 	failNF bool // the failing handler returns an error wrapping datastore.ErrNotFound
 	reuse  bool // Start re-starts the existing Store object instead of building a new one
+	// reentrant use: while the handlers of appendAt run, the first handler appends appendB (headers right above the head) and
+	// waits until the flush loop has taken them in — an Append that lands in the pending batch during a deletion
+	appendAt int
+	appendB  []int
+	also     []int // what that handler has appended during the current operation
 }
 
 func newEnv(t *testing.T, c cfg, img map[string][]byte) *env {
@@ -184,6 +191,17 @@ func (e *env) open() error {
 			}
 		} else if e.slow {
 			time.Sleep(time.Second)
+		}
+		if e.appendAt != 0 && int(h) == e.appendAt {
+			e.appendAt = 0
+			hs := make([]*vh.Header, 0, len(e.appendB))
+			for _, b := range e.appendB {
+				hs = append(hs, e.chain.At(uint64(b)))
+			}
+			if aerr := s.Append(context.Background(), hs...); aerr == nil {
+				e.also = append(e.also, e.appendB...)
+			}
+			synctest.Wait() // the flush loop has taken the batch in (it stays pending unless the batch size makes it flush)
 		}
 		e.callMu.Lock()
 		defer e.callMu.Unlock()
@@ -489,7 +507,7 @@ func parseVariant(s string) variant {
 func (e *env) doOp(op map[string]any, idx int, v variant, skipWait, last bool) (ev Event) {
 	name := mbt.Str(op, "op")
 	ev = Event{Op: name, B: ints(op["b"]), From: mbt.Int(op, "from"), To: mbt.Int(op, "to"), FailAt: mbt.Int(op, "failAt"),
-		Res: "ok", Calls: []call{}, N: e.cfg.n}
+		Res: "ok", Calls: []call{}, N: e.cfg.n, Also: []int{}}
 	if ev.B == nil {
 		ev.B = []int{}
 	}
@@ -529,6 +547,7 @@ func (e *env) doOp(op map[string]any, idx int, v variant, skipWait, last bool) (
 				}
 			}
 			e.failAt = ev.FailAt
+			e.appendAt, e.appendB, e.also = mbt.Int(op, "appendAt"), ints(op["appendB"]), nil
 			e.failSet = map[int]bool{}
 			for _, f := range ints(op["failSet"]) {
 				e.failSet[f] = true
@@ -603,6 +622,8 @@ func (e *env) doOp(op map[string]any, idx int, v variant, skipWait, last bool) (
 		}
 	}
 	ev.Calls = append(ev.Calls, e.calls...)
+	ev.Also = append([]int{}, e.also...)
+	e.also, e.appendAt = nil, 0
 	ev.WS = e.abstractLog(e.rs.Log()[logStart:])
 	ev.Obs = e.observe()
 	return ev
